@@ -7,8 +7,8 @@ ID = "C20"
 THM_MODULES = ["Minicbor.Thm.C20", "Minicbor.Thm.C06"]
 P = "Minicbor.C20."
 REQUIRED = [P + n for n in "f32_nohalf_f16_is_type_error f64_nohalf_f16_is_type_error f32_half_irrelevant f64_half_irrelevant".split()] + \
-           ["Minicbor.C06." + n for n in "noalloc_lockstep noalloc_refines noalloc_exact_or_unsupported".split()] + ["Minicbor.C12.no_half_feature"]
-THM_MODULES = THM_MODULES + ["Minicbor.Thm.C12"]
+           ["Minicbor.C06." + n for n in "noalloc_lockstep noalloc_refines noalloc_exact_or_unsupported".split()] + ["Minicbor.C12.no_half_feature", "Minicbor.C13.call_script"]
+THM_MODULES = THM_MODULES + ["Minicbor.Thm.C12", "Minicbor.Thm.C13"]
 PACKAGES = ["hcore"]
 CFGDIR = os.path.join(HARNESS, "cfg")
 CONFIGS = [("none", ""), ("half", "half"), ("alloc", "alloc"), ("alloc_half", "alloc,half"), ("std", "std"), ("std_half", "std,half")]
